@@ -12,7 +12,7 @@ CHECKS = {
         engine="RSX+PYX",
         category="model_checking",
         technique="bounded-exhaustive enumeration of byte strings / k-deviations of skeleton messages at every decoder entry point (Rust harness on the real crate) and end-to-end datagrams per configuration x pending operation",
-        text="Every byte string up to a length bound over full and reduced alphabets, every <=2-deviation and header tampering of ~90 well-formed skeleton messages, at all decoder entry points and through the real sockets for each configuration and pending operation; verdict = no unwind, no non-Exception BaseException, no hang, no worker death.",
+        text="Every byte string up to a length bound over full and reduced alphabets, every <=2-deviation and header tampering of ~90 well-formed skeleton messages, at all 29 decoder entry points (incl. OID rendering of decoded results), a grid of short relative-OID names after short absolute names, the privacy decrypt path, and end to end through the real sockets for each configuration and pending operation (deviations applied before sealing so that authentication passes) plus a slice through both public clients; verdict = no unwind, no non-Exception BaseException, no hang, no worker death.",
         note="bounds stated in evidence; memory safety of the two unsafe-bearing paths is covered by C17's shadow model (+Miri slice); longer strings are not claimed",
         ref="DESIGN.md s.3 C01",
     ),
@@ -36,7 +36,7 @@ CHECKS = {
         engine="PYX",
         category="model_checking",
         technique="explicit-state breadth-first search of the product {real client socket, lossy/duplicating/reordering/rewriting network}; every client transition executed on the implementation and compared with a reference model over the ids seen on the wire",
-        text="BFS with canonical state de-duplication over K requests and D deviations (duplicate / rewrite one field / truncate; loss and reordering free) for v1, v2c, v3 (noAuth and authPriv). Each receive outcome (value of request k, decode error, auth error, still waiting) must equal the model's.",
+        text="BFS with canonical state de-duplication over K requests and D deviations (duplicate / rewrite one field incl. ids +-2^32 / |2^31, Reports with foreign or non-echoed ids / truncate; loss and reordering free) for v1, v2c, v3 (noAuth and authPriv). Each receive outcome (value of request k, decode error, auth error, still waiting) must equal the model's.",
         note="state futures assumed to depend only on the fingerprint; id collisions detected from concrete ids and skipped",
         ref="DESIGN.md s.3 C04",
     ),
@@ -44,7 +44,7 @@ CHECKS = {
         engine="PYX",
         category="model_checking",
         technique="exhaustive enumeration of all MIBs over a small OID universe x bases x methods x caps x versions through both public iterators against an RFC 3416 reference agent",
-        text="Every subset MIB of a 10 (quick) / 14 (thorough) OID universe with multi-octet arcs and out-of-subtree neighbours x 9 bases x {getnext, getbulk(max_rep x cap), fetch} x {v1,v2c,v3} x {sync, async}: yields exactly the entries below the base, once, in order, then stops; request sequence checked.",
+        text="Every subset MIB of a 10 (quick) / 15 (thorough) OID universe with multi-octet arcs and out-of-subtree neighbours x 10 bases x {getnext, getbulk(max_rep x cap), fetch} x {v1,v2c,v3} x {sync, async}: yields exactly the entries below the base, once, in order, then stops; request sequence checked.",
         note="agent = vlib/refagent.py written from RFC 3416; larger universes not claimed",
         ref="DESIGN.md s.3 C05",
     ),
@@ -60,7 +60,7 @@ CHECKS = {
         engine="PYX",
         category="model_checking",
         technique="exhaustive enumeration of replies (0..3 varbinds x 17 value kinds x OID choices) x operations x configurations x drivers against the mapping table of the property",
-        text="Every reply with up to 3 varbinds over all 17 value kinds and OID choices, for get and get_many, on raw sockets for v1/v2c/v3 (plain, authPriv) and through both public clients, plus Report and silent agent: returned value / exception class must follow the documented table.",
+        text="Every reply with up to 3 varbinds over all 17 value kinds and OID choices, for get and get_many, on raw sockets for v1/v2c/v3 (plain, authPriv) and through both public clients, plus Reports (echoing / not echoing the request-id) and a silent agent: returned value / exception class must follow the documented table.",
         note="replies built by the reference encoder and USM sealing",
         ref="DESIGN.md s.3 C07",
     ),
@@ -84,8 +84,8 @@ CHECKS = {
         engine="PYX",
         category="fault_enumeration",
         technique="exhaustive enumeration of the forgery product (MAC class x flags x body x digest x cipher x pending operation) against the real v3 socket",
-        text="Every otherwise-matching reply with MAC in {valid, zero, random, each single bit flipped, short, absent} x auth/priv flags x {GetResponse, Report} x digests x ciphers x operation, each followed by the valid reply: a response is delivered only if authenticated and (when configured) encrypted.",
-        note="the pinned code verifies no MAC: recorded as known findings, one signature per accepted forgery class",
+        text="Every otherwise-matching reply with MAC in {valid, zero, random, each single bit flipped, short, absent} x auth/priv flags x {GetResponse, Report} x digests x ciphers x operation, and msgFlags/msgData mismatches (priv flag set over a plaintext body), each followed by the valid reply: a response is delivered only if authenticated and (when configured) encrypted.",
+        note="the pinned code verified no MAC (342 accepted-forgery signatures); repaired by fix 24bd228, so the check is now green; timeliness checks are outside the property",
         ref="DESIGN.md s.3 C10",
     ),
     "C11": dict(
@@ -100,7 +100,7 @@ CHECKS = {
         engine="PYX",
         category="model_checking",
         technique="exhaustive enumeration of password-length classes x engine-id lengths x digests x key types, as exposed and as installed in sessions; malformed material grid",
-        text="Password lengths 1..130, all 2^k and 2^k+-1 up to 2^20+, beyond 1 MiB; engine ids 0..32 octets; get_master_key/get_localized_key vs hashlib A.2; keys as installed (HMAC validity / decryptability of the first message) for password/master/localized; malformed sizes and algorithm codes refused with an Exception.",
+        text="Password lengths 1..130, all 2^k and 2^k+-1 up to 2^20+, beyond 1 MiB; engine ids 0..32 octets; get_master_key/get_localized_key vs hashlib A.2; keys as installed (HMAC validity / decryptability of emitted messages) for password/master/localized incl. mixed auth/priv key types, through raw sockets, discovery+set_keys and the public User classes (padding); malformed sizes and algorithm codes refused with an Exception.",
         note="reference = RFC 3414 A.2 in its 64-octet-chunk formulation (hashlib)",
         ref="DESIGN.md s.3 C12",
     ),
@@ -132,7 +132,7 @@ CHECKS = {
         engine="RSX",
         category="model_checking",
         technique="exhaustive metamorphic enumeration: every corpus element x every suffix over an alphabet; every over-long inner length",
-        text="For every successfully decoding element x and suffix s: from_ber(x||s) = (value(x), s); embedded elements are independent of what follows them; over-long inner lengths and trailing bytes after the top-level message are rejected.",
+        text="For every successfully decoding element x and suffix s: from_ber(x||s) = (value(x), s); a complete element refused alone stays refused whatever follows; embedded elements are independent of what follows them; inner lengths running past the enclosing element, parents declared shorter than their children, and bytes after the top-level message are rejected.",
         note="corpus built by the reference encoder",
         ref="DESIGN.md s.3 C16",
     ),
@@ -140,7 +140,7 @@ CHECKS = {
         engine="RSX+PYX",
         category="model_checking",
         technique="exhaustive enumeration of buffer operation sequences against a Vec-backed shadow model (Rust harness, Miri slice, loom on the pool) and an octet-by-octet request size sweep through the real sockets",
-        text="All operation sequences to depth 4/5 over push/push_u8/push_tag_len/push_tagged/skip+fill/reset/bookmark with boundary sizes vs a shadow model; request sizes swept octet by octet across 127/128, 255/256 and the capacity at each nesting level for every configuration: fits => complete, strictly decodable; does not fit => SnmpEncodeError, nothing sent, next request intact.",
+        text="All operation sequences to depth 4/5 over push/push_u8/push_tag_len/push_tagged/skip+fill/reset/bookmark with boundary sizes vs a shadow model; request sizes swept octet by octet across 127/128, 255/256 and the capacity at each nesting level for every configuration: fits => complete, strictly decodable; does not fit => SnmpEncodeError, nothing sent, next request intact; padding octets inside the ciphertext independent of the session's history; loom interleavings of the pool; Miri slice in the thorough tier.",
         note="capacity is discovered, not hard-coded",
         ref="DESIGN.md s.3 C17",
     ),
@@ -149,7 +149,7 @@ CHECKS = {
         category="fault_enumeration",
         technique="exhaustive enumeration of arrival schedules; async client on a virtual-time event loop (exact), sync client on the real clock with tolerance and re-confirmation",
         text="All schedules of k stray datagrams at spacings from a small set, optionally followed by the matching reply before/after the deadline, x {v1,v2c,v3}: async must deliver iff the reply arrives by T and time out at exactly T (virtual time); sync must return by T + slack.",
-        note="sync half depends on the real clock (tolerance-based); sync restarts its time-out per stray datagram: known finding",
+        note="sync half depends on the real clock (tolerance 0.5T, violations re-confirmed); includes multi-call sequences on one session and v3 session entry; the per-datagram re-armed time-out of the pinned code was repaired (8939f69, c1a09e7)",
         ref="DESIGN.md s.3 C18",
     ),
     "C19": dict(
